@@ -373,31 +373,9 @@ impl<K: Hash + Eq, KH: KeyHasher<K>> TinyLFU<K, KH> {
         K: Borrow<Q>,
         Q: Hash + Eq + ?Sized,
     {
-        let akh = self.hash_key(a);
-        let mut a_ctr = 0;
-        if !self.doorkeeper.contains(akh) {
-            let bkh = self.hash_key(b);
-            return if !self.doorkeeper.contains(bkh) {
-                (0, 0)
-            } else {
-                (0, 1)
-            };
-        } else {
-            a_ctr += 1;
-        }
-
-        let bkh = self.hash_key(b);
-        let mut b_ctr = 0;
-        if !self.doorkeeper.contains(bkh) {
-            return (1, 0);
-        } else {
-            b_ctr += 1;
-        }
-
-        a_ctr += self.ctr.estimate(akh);
-        b_ctr += self.ctr.estimate(bkh);
-
-        (a_ctr, b_ctr)
+        // compare what `estimate` reports: the sketch counters keep (halved) counts across a
+        // reset while the doorkeeper is cleared, so the doorkeeper alone cannot decide
+        (self.estimate(a), self.estimate(b))
     }
 
     /// Returns the hash for the key
